@@ -33,7 +33,7 @@ class Stats:
     queries = 0
 
 
-def valid(hyps, goal, timeout=8000):
+def valid(hyps, goal, timeout=30000):
     Stats.queries += 1
     s = Solver()
     s.set(timeout=timeout)
@@ -469,13 +469,16 @@ def run_loop(c, body, st, ctx):
         return out
 
     def tick():
-        if time.time() > getattr(ctx, "deadline", float("inf")):
+        # deterministic budget (number of solver queries) so that the verdict does not depend on the load of the machine;
+        # the wall-clock deadline is only a generous safety net
+        Stats.queries += 1
+        if Stats.queries > getattr(ctx, "query_budget", float("inf")) or time.time() > getattr(ctx, "deadline", float("inf")):
             raise NotImplementedError("time budget exhausted")
 
     while cands:
         tick()
         sv = Solver()
-        sv.set(timeout=8000)
+        sv.set(timeout=30000)
         sv.add(*st.path)
         sv.add(*facts(st))
         sv.add(Not(And([f(st) for _, f in cands])))
@@ -506,7 +509,7 @@ def run_loop(c, body, st, ctx):
             while live:
                 tick()
                 sv = Solver()
-                sv.set(timeout=8000)
+                sv.set(timeout=30000)
                 sv.add(*l.path)
                 sv.add(*facts(h, l))
                 sv.add(Not(And([f(l) for _, f in live])))
@@ -570,7 +573,8 @@ def verify_kernel(member, fn, kind, timeout_s=120):
     Stats.queries = 0
     ctx = Ctx(member, fn, kind)
     t0 = time.time()
-    ctx.deadline = t0 + timeout_s
+    ctx.deadline = t0 + 8 * timeout_s
+    ctx.query_budget = int(timeout_s * 150)
     try:
         st = setup(ctx)
         run(fn.body, st, ctx)
@@ -581,7 +585,7 @@ def verify_kernel(member, fn, kind, timeout_s=120):
     refuted = []
     for name, hyps, goal in ctx.checks:
         s = Solver()
-        s.set(timeout=8000)
+        s.set(timeout=30000)
         s.add(*hyps)
         s.add(Not(goal))
         r = s.check()
@@ -591,7 +595,8 @@ def verify_kernel(member, fn, kind, timeout_s=120):
             open_.append(name)
             if r == sat:
                 refuted.append(name)  # a counter-model under the inferred invariants (may still be spurious)
-        if time.time() - t0 > timeout_s:
+        Stats.queries += 1
+        if Stats.queries > ctx.query_budget or time.time() > ctx.deadline:
             open_.append("(time budget exhausted)")
             break
     return dict(checks=len(ctx.checks), proved=proved, open=sorted(set(open_)), refuted=sorted(set(refuted)), loops=len(ctx.invariants),
